@@ -319,6 +319,15 @@ def _check_pm(ctx, idx, reqs, pending):
                  kind='pm', path=path, dtype=d['dtype'], syntax=TSNAME[d['ts']], source=d['source'], N=N, M=M,
                  layout=d['layout'], outcome='ok' if ok else 'FAIL', **h)
         if not ok:
+            # the open finding C19-float-frames-unreadable fails on every frame of every float map: report the first
+            # 60 such observations as failures (attributed), count the rest -- so that they cannot crowd other
+            # failures out of the framework's failure list
+            if is_float and isinstance(detail, str) and detail.startswith('AttributeError') \
+                    and ('PixelData' in detail or 'PixelRepresentation' in detail):
+                ctx._c19_float_errors = getattr(ctx, '_c19_float_errors', 0) + 1
+                if ctx._c19_float_errors > 60:
+                    ctx.hist('float_unreadable', path)
+                    return
             ctx.fail(dict(case, path=path, frame=frame), detail or 'differs from the input plane', site=path)
 
     # ---- L1: the data set itself
@@ -432,10 +441,10 @@ def _check_pm(ctx, idx, reqs, pending):
                            apply_voi_transform=False, apply_presentation_lut=False, allow_missing_positions=True)
             if s6 != 'ok':
                 irregular = 'regular' in str(vol) or 'spacing' in str(vol).lower() or 'volume' in str(vol).lower()
-                if is_float or not irregular:
-                    obs(f'{tag}/get_volume', False, vol, None, float=is_float)
-                else:
+                if irregular and not str(vol).startswith('AttributeError'):
                     ctx.hist('volume', 'not a regular volume')
+                else:
+                    obs(f'{tag}/get_volume', False, vol, None, float=is_float)
             else:
                 arr = np.asarray(vol.array)
                 vpos = [tuple(round(float(x), 6) for x in p[0].ImagePositionPatient) for p in vol.get_plane_positions()]
